@@ -129,6 +129,20 @@ def load_known():
     return known
 
 
+class _Included:
+    """what a lower-layer module's register() sees when it is included by another check"""
+
+    def __init__(self, chk, prefix):
+        self._chk, self._prefix = chk, prefix
+        self.tier, self.args, self.pid = chk.tier, chk.args, chk.pid
+        self.replayer = None
+        self.explanation = ""
+        self.bounds, self.trusted, self.assumptions = [], [], []
+
+    def add(self, name, fn, *args):
+        self._chk.add(self._prefix + name, fn, *args)
+
+
 class Check:
     def __init__(self, pid, level, argv=None):
         import argparse
@@ -161,6 +175,8 @@ class Check:
         self.explanation = ""
         self.functions_encoded = set()
         self.replayer = None       # callable(result) -> True/False/None, set by the check
+        self.dep_replayers = {}    # obligation-name prefix -> replayer of the included lower-layer check
+        self.included = []
 
     def _finish_replay(self):
         rp = self.replay_of
@@ -168,9 +184,9 @@ class Check:
             print("REPLAY property=%s: obligation %r does not exist in this check any more" % (self.pid, rp.get("obligation")))
             sys.exit(2)
         r = self.results[0]
-        if r.status == "violated" and self.replayer is not None:
+        if r.status == "violated" and self._replayer_for(r) is not None:
             try:
-                r.replayed = self.replayer(r)
+                r.replayed = self._replayer_for(r)(r)
             except Exception as e:
                 r.detail += " [replay error: %s]" % e
         print("REPLAY property=%s file=%s" % (self.pid, self.args.replay))
@@ -181,11 +197,33 @@ class Check:
             sys.exit(1)
         sys.exit(0 if r.status == "proved" else 2)
 
+    def _replayer_for(self, r):
+        for pre, fn in self.dep_replayers.items():
+            if r.name.startswith(pre):
+                return fn
+        return None if r.name.startswith("dep:") else self.replayer
+
     def add(self, name, fn, *args):
         import re
         if self.args.only and not re.search(self.args.only, name):
             return
         self.jobs.append((name, fn, args))
+
+    def include(self, pid):
+        """Register the obligations of a lower-layer check inside this one (names prefixed `dep:<pid>:`).  A check replaces lower-layer functions
+        by their specifications; the obligations that establish those specifications belong to its claim, so a change below that breaks this
+        property is reported here as well, not only by the lower check.  The module's `include_in(proxy)` builds its programs in this (parent)
+        process and registers its obligations."""
+        import importlib
+        here = os.path.join(VERIF, "checks")
+        if here not in sys.path:
+            sys.path.insert(0, here)
+        mod = importlib.import_module(pid.lower())
+        proxy = _Included(self, "dep:%s:" % pid)
+        mod.include_in(proxy)
+        if proxy.replayer is not None:
+            self.dep_replayers["dep:%s:" % pid] = proxy.replayer
+        self.included.append(pid)
 
     def run(self):
         n = max(1, min(self.args.jobs, len(self.jobs)))
@@ -211,12 +249,13 @@ class Check:
         known_hit = []
         for r in self.results:
             if r.status == "violated":
-                if self.replayer is not None and r.replayed is None:
+                rp_fn = self._replayer_for(r)
+                if rp_fn is not None and r.replayed is None:
                     import signal
                     signal.signal(signal.SIGALRM, _alarm)
                     signal.alarm(300)
                     try:
-                        r.replayed = self.replayer(r)
+                        r.replayed = rp_fn(r)
                     except _Budget:
                         r.replayed = None
                         r.detail += " [replay timed out]"
